@@ -107,10 +107,10 @@ fn plan(prop: &str) -> Plan {
             runs_thorough: 30_000_000,
             builds_quick: &["default", "preserve_order", "perf"],
             builds_thorough: ALL_BUILDS,
-            rule: "One evaluation = one seeded scenario: either (A) a type description T + value v, serialized to a document by one of the five text serializers, then decoded by the reader peer R(T) through all nine decoding routes (toml::from_str, toml_edit::de::from_str/from_slice, from_document(DocumentMut/ImDocument), toml::Value::try_into, toml::Table::try_into, both single-value deserializers), plus Value/Table::try_from compared with the text route and the two value-level serializers compared with each other; or (B) a DocGen/corpus document with an inferred (sometimes mismatching) reader type through the seven document routes; in both a fraction of runs injects F-VIS (a visitor callback of the reader fails at callback k, entry or exit) and B sometimes lets the reader stop early (H8). Non-trivial = type description + document tree have >= 3 nodes; distinct = distinct conversation shape (hash of the seam event sequence of the whole run, payloads erased), counted with a hash set. In 1/8 of the evaluations the peers are REAL derived types (workload R, sim/src/realfam.rs: seven families using flatten, untagged, internally and adjacently tagged enums, default, rename_all, skip_serializing_if, Box, toml::Table flattened, and HashMap fields whose iteration order is the environment's choice) driven through the same seams, faults and oracles.",
+            rule: "One evaluation = one seeded scenario: either (A) a type description T + value v, serialized to a document by one of the five text serializers, then decoded by the reader peer R(T) through all thirteen decoding routes (toml::from_str, toml_edit::de::from_str/from_slice, from_document(DocumentMut/ImDocument), the IntoDeserializer entry points, toml::Value::try_into, toml::Table::try_into, the single-value deserializers) and, in a seeded quarter of the scenarios each, seven alias entry points (Deserializer::parse / FromStr / new, str::parse::<Value/Table>, Value/Table::into_deserializer), plus Value/Table::try_from compared with the text route, and the two value-level serializers compared with each other and with Value::try_from (asserted); a third of the runs use hand-written leaf visitors (visit_i64 / visit_f64 only, H9); or (B) a DocGen/corpus document with an inferred (sometimes mismatching) reader type through the seven document routes; in both a fraction of runs injects F-VIS (a visitor callback of the reader fails at callback k, entry or exit) and B sometimes lets the reader stop early (H8). Non-trivial = type description + document tree have >= 3 nodes; distinct = distinct conversation shape (hash of the seam event sequence of the whole run, payloads erased), counted with a hash set. In 1/8 of the evaluations the peers are REAL derived types (workload R, sim/src/realfam.rs: seven families using flatten, untagged, internally and adjacently tagged enums, default, rename_all, skip_serializing_if, Box, toml::Table flattened, and HashMap fields whose iteration order is the environment's choice) driven through the same seams, faults and oracles.",
             real: &["all nine decoding routes (toml::de, toml_edit::de::*, impl Deserializer for toml::Value / toml::Table)", "toml::Value::try_from / Table::try_from, toml::ser::ValueSerializer, toml_edit::ser::ValueSerializer", "the five text serializers (document production)", "toml_edit parser", "serde's primitive impls, toml_datetime impls, toml::Value Deserialize"],
             stub: &["reader peer R(T) incl. DynVal root adapter", "writer peer W(T,v)", "seam interposers (log events, inject F-VIS)", "DocGen renderer + type inference", "reference reader (probe only, not asserted)"],
-            assumptions: &["only what C13 states is asserted: successful routes agree; on text produced by serializing a value of T (must-succeed class) every route succeeds and returns it; try_from equals the text route when both succeed; a reader failure is never swallowed and nothing panics", "which value is *right* for a hand-written document is C02's business: comparison with the reference reader is a probe, not an assertion", "peer stubs behave like serde_derive output (self-tested)"],
+            assumptions: &["only what C13 states is asserted: successful routes agree; on text produced by serializing a value of T (must-succeed class) every route succeeds and returns it, and outside that class no route fails while another one reads the value back; try_from equals the text route and the value-level text when both succeed; a reader failure is never swallowed and nothing panics", "which value is *right* for a hand-written document is C02's business: comparison with the reference reader is a probe, not an assertion", "peer stubs behave like serde_derive output (self-tested)"],
         },
         "C14" => Plan {
             level: "exploration",
@@ -118,7 +118,7 @@ fn plan(prop: &str) -> Plan {
             runs_thorough: 20_000_000,
             builds_quick: &["default", "preserve_order", "perf"],
             builds_thorough: ALL_BUILDS,
-            rule: "One evaluation = one seeded scenario: a document (DocGen layout plan rendered with multi-byte text, BOM, CRLF, comments, odd whitespace, dotted keys, header / array-of-tables / inline layouts, four string kinds, exotic number and date-time spellings; or one of the toml-test 1.0.0 valid documents) and a reader type inferred from its tree in which the reader peer asks for a span (serde_spanned protocol) at a seeded subset of nodes - values, keys, tables, arrays, array-of-tables elements, enum payloads, options, newtypes, the root; 100%, 60%, 25% or 10% of the nodes. Every span() of the parsed ImDocument is checked (bounds, char boundaries, nesting, slice re-parses to the same key/value, equals the byte range DocGen recorded when it wrote the token); the reader decodes through the four span-bearing routes with and without the Spanned wrappers (same verdict, same value, delivered span = the tree's own span()), and through the editable-document route where no span may survive. Non-trivial = reader type + document tree have >= 3 nodes; distinct = distinct conversation shape (seam event sequence with payloads erased), counted with a hash set.",
+            rule: "One evaluation = one seeded scenario: a document (DocGen layout plan rendered with multi-byte text, BOM, CRLF, comments, odd whitespace, dotted keys, header / array-of-tables / inline layouts, four string kinds, exotic number and date-time spellings; or one of the toml-test 1.0.0 valid documents) and a reader type inferred from its tree in which the reader peer asks for a span (serde_spanned protocol) at a seeded subset of nodes - values, keys, tables, arrays, array-of-tables elements, enum payloads, options, newtypes, the root; 100%, 60%, 25% or 10% of the nodes. Every span() of the parsed ImDocument is checked (bounds, char boundaries, nesting, slice re-parses to the same key/value, equals the byte range DocGen recorded when it wrote the token; a table written with its own header spans exactly header start .. end of the last key/value line of its body; an array of tables spans exactly first element start .. last element end); the reader decodes through the five span-bearing routes (plus three alias entry points in a seeded quarter of the scenarios each) with and without the Spanned wrappers (same verdict, same value, delivered span = the tree's own span()), and through the editable-document route where no span may survive. Non-trivial = reader type + document tree have >= 3 nodes; distinct = distinct conversation shape (seam event sequence with payloads erased), counted with a hash set.",
             real: &["toml_edit parser (all span producers), ImDocument / DocumentMut / into_mut / despan", "toml_edit::de::* incl. SpannedDeserializer, KeyDeserializer; toml::de wrappers", "Value::from_str / Key::from_str (slice re-parse)", "serde's primitive impls"],
             stub: &["reader peer R(T) with a stub visitor for the serde_spanned protocol (same call sequence as serde_spanned::Spanned<T>)", "DocGen renderer and its expected-span table", "seam interposers (logging only)"],
             assumptions: &["DocGen only uses constructs the TOML specification shows as valid (class U1 excluded); a generated document the library rejects is counted, not reported", "for tables that have no span of their own (dotted-key / header-implied) only bounds and containment of children are asserted for a delivered span", "the stub Spanned visitor follows serde_spanned's protocol (self-tested against the real type)"],
